@@ -79,6 +79,12 @@ def gen(rng):
             for _ in range(int(rng.integers(1, 4))):
                 s["ext_grids"].append({"junction": j, "p_bar": p0 * float(rng.uniform(0.95, 1.05)), "t_k": s["ext_grids"][0]["t_k"],
                                        "type": str(rng.choice(["p", "pt", "t"])), "in_service": bool(rng.random() < 0.75)})
+        if s["pumps"] and rng.random() < 0.6:
+            # a pump station: a stand-by unit of another type (out of service) next to a running pump, anywhere in the table
+            run = s["pumps"][int(rng.integers(0, len(s["pumps"])))]
+            other = [t for t in ("P1", "P2", "P3") if t != run["std_type"]]
+            spare = {"from": run["from"], "to": run["to"], "std_type": str(rng.choice(other)), "in_service": False}
+            s["pumps"].insert(int(rng.integers(0, len(s["pumps"]) + 1)), spare)
         return s
     s = netgen.gen_heat_loop(rng)
     s["options"]["mode"] = "hydraulics"
